@@ -1279,8 +1279,11 @@ def cyclic_feedthrough(systems, res):
         for r, row in enumerate(D):
             for c, x in enumerate(row):
                 Dd[offs_y[k] + r][offs_u[k] + c] = Fraction(x)
-    N = exmat.mul(cm, Dd) if oy and ou else [[Fraction(0)] * nu for _ in range(nu)]
-    adj = [[j for j in range(nu) if N[i][j] != 0] for i in range(nu)]
+    # structural graph on the subsystem inputs: i -> j when input j feeds through some direct term to
+    # an output that is connected to input i (an edge exists even when the gains of several such
+    # paths cancel: u0 <- -(y0 + y2) with D = [1, -1]' is an algebraic loop although cm * D = 0)
+    adj = [[j for j in range(nu) if any(cm[i][k] != 0 and Dd[k][j] != 0 for k in range(oy))]
+           for i in range(nu)]
     color = [0] * nu
 
     def dfs(v):
@@ -1514,4 +1517,7 @@ class C07(Family):
         return []
 
 
-FAMILY = C07
+# >>> C07-spelling: spelling-pair stream + Props/C07Spell.lean as proof obligations (families/c07_spell.py)
+from families.c07_spell import with_spelling  # noqa: E402
+FAMILY = with_spelling(C07)
+# <<< C07-spelling
